@@ -1,5 +1,3 @@
-import os
-
 from trashcli.put.fs.fs import RealPathFs
 
 
@@ -10,6 +8,6 @@ class TrashDirVolumeReader:
         self.fs = fs
 
     def volume_of_trash_dir(self, trash_dir_path):
-        norm_trash_dir_path = os.path.normpath(trash_dir_path)
-        return self.fs.volume_of(
-            self.fs.realpath(norm_trash_dir_path))
+        # realpath resolves 'link/..' the way the kernel does when the
+        # directory is created and used (normpath would drop 'link' first)
+        return self.fs.volume_of(self.fs.realpath(trash_dir_path))
